@@ -590,6 +590,25 @@ func main() {
 		{map[string]*T{"matrix": strictObj("x", &T{K: kArr, Elem: tNum})}, "matrix.x && github.event.*"},
 		{map[string]*T{"needs": strictObj("build", strictObj("outputs", strictObj("v", tStr), "result", tStr))}, "needs.*.result"},
 	}
+	// every pair of operand types from a pool (scalars, arrays of scalars / of any / of arrays / of
+	// objects, closed and open objects) x comparison operators: `matrix.l OP matrix.r`
+	{
+		arr := func(e *T) *T { return &T{K: kArr, Elem: e} }
+		open := strictObj("name", tStr)
+		open.Mapped = tAny
+		pool := []*T{tStr, tNum, tBool, tNull, tAny, arr(tStr), arr(tNum), arr(tAny), arr(arr(tStr)), arr(strictObj("name", tStr)), strictObj("name", tStr), open}
+		for _, l := range pool {
+			for _, rr := range pool {
+				for _, op := range []string{"==", "!=", "<"} {
+					corpus = append(corpus, struct {
+						slots map[string]*T
+						src   string
+					}{map[string]*T{"matrix": strictObj("l", l, "r", rr)}, "matrix.l " + op + " matrix.r"})
+				}
+			}
+		}
+		sum.Dist["corpus_pairs"] = len(corpus)
+	}
 	ci := 0
 	for pairs < total {
 		env := genEnv(r)
